@@ -134,7 +134,17 @@ def bait_window(rng, labels):
     p = lambda: 1 if rng.random() < 0.15 else 0
     I = lambda m, op='', nb=2: ('I', m, p(), nb, 3, None, op)
     lab = rng.choice(labels) if labels else '.x'
-    w = rng.randrange(18)
+    w = rng.randrange(21)
+    if w >= 18:
+        # a compare of a known constant whose branch can never be taken (both are removed), followed at
+        # once by an instruction that is not a load and changes the register, then the constant again
+        r, c, inc, tr = rng.choice([('LDX', 'CPX', 'INX', 'TXA'), ('LDX', 'CPX', 'DEX', 'TXA'), ('LDY', 'CPY', 'INY', 'TYA'),
+                                    ('LDY', 'CPY', 'DEY', 'TYA'), ('LDA', 'CMP', 'TXA', 'TAX'), ('LDA', 'CMP', 'TYA', 'TAY')])
+        k1, k2 = rng.sample(['#0', '#1', '#2', '#5', '#255'], 2)
+        never = ('I', 'BEQ', 0, 2, 2, 3, lab)          # k1 != k2: BEQ is never taken
+        use = rng.choice([[I(c, k1), ('I', rng.choice(['BNE', 'BEQ']), p(), 2, 2, 3, lab), I('STA', mem)],
+                          [I(r, k1), I('ST' + r[2], mem)], [I('ST' + r[2], mem)]])
+        return [I(r, k1), I(c, k2), never, I(inc, '', 1)] + use
     if w >= 16:
         # a label reached both by falling out of "LDA #v ; JMP lab" and by an earlier branch, then
         # code that depends on the accumulator: the jump is removable, the knowledge about A is not
@@ -329,8 +339,10 @@ def semantic_search(mism, rng, nstates=32, limit=300):
             b = runs.get(cid + '@out', {}).get(k)
             if a is None or b is None or a['tag'] != 'halt':
                 continue
-            if observable(a) != observable(b):
-                found.append({'why': 'optimize() changed the behaviour of this line list (not merely its text): same initial state, different final state',
+            if observable(a) != observable(b) or a.get('trace') != b.get('trace'):
+                found.append({'why': 'optimize() changed the behaviour of this line list (not merely its text): same initial state, different final state'
+                                     if observable(a) != observable(b) else
+                                     'optimize() changed the sequence of protected (hardware access / timing) instructions executed: %s vs %s' % (a.get('trace'), b.get('trace')),
                               'input': m['input'], 'optimised_by_implementation': m['impl'][3], 'optimised_by_model': m['model'][3],
                               'initial': describe_state(lay, states[k], w),
                               'run_of_input': describe_run(lay, a, w), 'run_of_optimised': describe_run(lay, b, w)})
